@@ -36,6 +36,10 @@ CLAIMED = {
    technique="deterministic simulation with write-side fault injection and crash/restart: commit-time children-durable invariant on every prefix of every build's write sequence; exhaustive failure of every write-protocol step (open, torn write, commit), crash at every write event with restart on durable state, disk-full at several sizes, input-stream errors",
    text="Per seeded build (file incl. empty/one-byte/multi-level at widths 2..174, symlink, plain/sharded/auto-sharded directory with present and absent external entries, recursive import of a temp tree, quick builder) the whole single-fault plan space is enumerated (strided above 150/400 steps, root block always included). Oracles: children durable at every commit; any write fault => error and nil link; returned link => closure durable; restart after crash => no dangling builder-written link.",
    note="Exhaustive per generated build, sampled over builds. Links to caller-supplied entries are exempt. The quick builder is judged on ordering only (its API panics on failure)."),
+ "C17": dict(level="exploration", ref="DESIGN.md §3 C17",
+   technique="deterministic simulation of concurrent callers: real goroutines serialized by a seeded scheduler at every storage request and operation boundary, Go race detector with the scheduler's hand-offs hidden (runtime.RaceDisable) so only the library's own synchronisation orders tasks, per-operation equality with the sequential result",
+   text="Seeded search over schedules of 2-6 tasks x operation lists (LookupByString of members/non-members/a deep hot name, full MapIterator, Length, AsBytes, own-reader Seek/Read) on one shared node (sharded directory cold or pre-warmed, multi-block file). Oracles: no race report attributable to go-unixfsnode; every result equals the result when run alone; no panic. Each violating schedule replays from its sched tape; race candidates are re-judged in fresh processes because the detector reports a stack pair once per process.",
+   note="Built with -race (run.sh builds bin/check-race for this property). Code between two park points runs unpreempted; the race detector's vector clocks, not preemption, expose unsynchronised accesses there. Reports whose innermost frame is harness code exit 2, never VIOLATION."),
 }
 
 NA = {
@@ -52,7 +56,7 @@ NA = {
  "C19": "Pure function of (random stream, size); the injected reader is a seed, not a fault surface.",
 }
 
-PENDING = {k: "claimed in DESIGN.md; check under construction in this round, not yet registered" for k in ["C17"]}  # id -> reason, for claimed-in-design checks that are not built yet
+PENDING = {}  # id -> reason, for claimed-in-design checks that are not built yet
 
 def main():
     checks = []
